@@ -120,7 +120,9 @@ def check(ctx):
     # ------------------------------------------------------------ aggregates
     qpool = {"len": ["1 m", "100 cm", "2 km", "3 in", "1/2 m", "2.5 m", "1 mi"], "time": ["3 s", "1 min", "2 h", "1/3 s", "0.5 s"],
              "dimless": ["2 rad", "1 dozen", "90 deg"]}
-    for _ in range(ctx.n(260, 4000)):
+    fixed_arrays = [["0.5", "0.5", "(1/3)"], ["1.5", "2.5", "(10^17+1)"], ["0.1", "0.2", "0.3"], ["2.5", "2.5", "(1/7)"], ["0.25", "0.75", "(2/3)", "1.5"],
+                    ["1e17", "1.5", "(1/2)"], ["(1/3)", "0.5", "0.5"], ["3", "0.5", "(7/2)"], ["2^53", "1.0", "1.0"], ["0.5", "(1/2)"], ["4.0", "(1/4)"]]
+    for it in range(ctx.n(260, 4000) + 3 * len(fixed_arrays)):
         r = rng.random()
         n = rng.choice([0, 0, 1, 1, 2, 2, 3, 4, 5, 6, 8, 12])
         if r < 0.45:
@@ -140,12 +142,15 @@ def check(ctx):
         else:
             elems = ["{1, 2}", "3", "{4}"][: max(1, n % 4)]
             cls = "nested"
+        forced = None
+        if it < 3 * len(fixed_arrays):
+            elems, cls, forced = list(fixed_arrays[it // 3]), "mixed", ("sum", "mean", "prod")[it % 3]
         arr = "{" + ", ".join(elems) + "}"
         ka, va = R.value(arr)
         if ka != "ok":
             continue
         keys = [key_of(x, T) for x in va.contents]
-        fn = rng.choice(AGGS)
+        fn = forced or rng.choice(AGGS)
         text = "%s(%s)" % (fn, arr)
         k, v = R.value(text)
         ctx.count(text, nontrivial=n > 0, bucket="agg/" + cls)
